@@ -351,6 +351,45 @@ def f4_signature(res):
         return None
 
 
+def lattice_verdicts(results):
+    """polar-model lattice_check (C16, verified judge) on the lattice rows the code handed to LatticeIdeal;
+    returns {index: {"sound": bool, "complete": bool}}"""
+    reqs, idx = [], []
+    for i, res in results.items():
+        if res.get("bases_q") and res.get("lattice") is not None:
+            reqs.append({"op": "lattice_check", "bases": res["bases_q"], "rows": res["lattice"]})
+            idx.append(i)
+    out = {}
+    for i, ans in zip(idx, model_batch_parallel(reqs, timeout=60)):
+        if ans.get("ok") and ans.get("shape_ok", True):
+            out[i] = {"sound": all(ans.get("sound", [])), "complete": bool(ans.get("complete")),
+                      "spec_basis": ans.get("spec_basis")}
+    return out
+
+
+def attribution_runs(cases, verdicts, suspects, want_c07, k_extra, caps, timeout, clean):
+    """re-run the suspects with the in-memory lattice repairs.  `clean(verdict)` says whether the failure is
+    gone.  Order: integer-kernel repair (F4) / shortcut repair (F4b); where that run does not finish, the
+    'filter' repair (the code's own rows minus the rows that are not relations) - for soundness (C06) only."""
+    repaired = {}
+    for sig, kind in (("F4", "kernel"), ("F4b", "one")):
+        idx = [i for i in suspects if f4_signature(verdicts[i]["res"]) == sig]
+        if not idx:
+            continue
+        o2 = run_cases([cases[i] for i in idx], want_c07, k_extra, caps, timeout * 2, repair=kind)
+        v2 = judge([cases[i] for i in idx], o2, want_c07)
+        for i, w in zip(idx, v2):
+            repaired[i] = {"kind": kind, "verdict": w, "clean": w["status"] == "ok" and clean(w)}
+        if not want_c07:
+            rest = [i for i in idx if repaired[i]["verdict"]["status"] in ("timeout", "refused")]
+            if rest:
+                o3 = run_cases([cases[i] for i in rest], want_c07, k_extra, caps, timeout, repair="filter")
+                v3 = judge([cases[i] for i in rest], o3, want_c07)
+                for i, w in zip(rest, v3):
+                    repaired[i] = {"kind": "filter", "verdict": w, "clean": w["status"] == "ok" and clean(w)}
+    return repaired
+
+
 def replay_blob(case, v, what):
     res = v.get("res") or {}
     blob = {"case": {k: case[k] for k in ("id", "kind", "cfs", "text", "goals", "subs") if k in case},
